@@ -43,7 +43,8 @@ WHOLE = {
     "C07": ["crypto_core/ed25519/ref10/fe_51/constants.h", "crypto_core/ed25519/core_ristretto255.c", "crypto_scalarmult/ristretto255/ref10/scalarmult_ristretto255_ref10.c"],
     "C08": ["crypto_pwhash/argon2/blamka-round-avx2.h", "crypto_pwhash/argon2/argon2-fill-block-avx2.c", "crypto_pwhash/argon2/blamka-round-ssse3.h", "crypto_pwhash/argon2/argon2-fill-block-ssse3.c",
             "crypto_pwhash/argon2/blamka-round-avx512f.h", "crypto_pwhash/argon2/argon2-fill-block-avx512f.c", "crypto_pwhash/argon2/blamka-round-ref.h", "crypto_pwhash/argon2/argon2-fill-block-ref.c", "crypto_pwhash/argon2/blake2b-long.c",
-            "crypto_pwhash/scryptsalsa208sha256/nosse/pwhash_scryptsalsa208sha256_nosse.c", "crypto_pwhash/scryptsalsa208sha256/pbkdf2-sha256.c"],
+            "crypto_pwhash/scryptsalsa208sha256/nosse/pwhash_scryptsalsa208sha256_nosse.c", "crypto_pwhash/scryptsalsa208sha256/pbkdf2-sha256.c",
+            "crypto_pwhash/scryptsalsa208sha256/sse/pwhash_scryptsalsa208sha256_sse.c", "crypto_pwhash/scryptsalsa208sha256/crypto_scrypt-common.c", "crypto_pwhash/scryptsalsa208sha256/pwhash_scryptsalsa208sha256.c"],
     "C01": ["crypto_aead/aegis128l/aegis128l_common.h", "crypto_aead/aegis128l/aegis128l_soft.c", "crypto_aead/aegis256/aegis256_common.h", "crypto_aead/aegis256/aegis256_soft.c",
             "crypto_aead/aegis128l/aead_aegis128l.c", "crypto_aead/aegis256/aead_aegis256.c", "crypto_core/softaes/softaes.c", "include/sodium/private/softaes.h",
             "crypto_aead/aegis128l/aegis128l_aesni.c", "crypto_aead/aegis256/aegis256_aesni.c", "crypto_aead/aes256gcm/aesni/aead_aes256gcm_aesni.c"],
